@@ -11,6 +11,12 @@ package main
 //             until the first `r` (server restart), the second afterwards:
 //               R dial refused   S silent (accepts, reads, never answers)   H answers garbage and closes
 //               P real server, plain   T real server, carrier counted as secure
+//               Q real server that offers StartTLS on a plain carrier (the client upgrades: secure)
+//             stall points — a real StartTLS-offering server whose answers stop reaching the client at a
+//             LATER point of the handshake (the peer keeps reading and never hangs up), see stallConn:
+//               A after the first response (200 with the capabilities; the 101 never arrives)
+//               L after the 101: the client is inside tls.Conn.Handshake, no TLS byte ever arrives
+//               K after the 101 and the first 7 bytes of the ServerHello record (a TLS record cut short)
 // history   : one character per event
 //               c new local connection, kept open      d new local connection, closed after its echo
 //               u new local connection for a channel the server does not know
@@ -25,7 +31,8 @@ package main
 // socketace.NewClientConnection on one end of a net.Pipe, the mustSecure guard, the NamedConnection
 // wrapping.  The other pipe end is served by the real server.AcceptConnection (P, T) or by the script.
 // Time is compressed: a deadline the client sets on a physical connection is shortened (40 ms towards a
-// silent peer, 5 s otherwise) — code that sets no deadline blocks, and is reported `B` after 4 s.
+// silent peer, polStallCompress towards a peer that stalls later, 5 s otherwise) — code that sets no
+// deadline, or takes it off before the stall point, blocks, and is reported `B` after 4 s.
 //
 // result, one token per event:
 //   connect events : <who>/<dials>/<phys>   who = DD (forward target answered) | U<i> (upstream i's
@@ -110,6 +117,79 @@ type polPhys struct {
 	server       net.Conn
 	serverClosed bool
 	established  bool
+	stall        *stallConn // A, L, K
+}
+
+// stallConn is the server end of a physical connection whose peer stalls at a later point of the
+// handshake: the real server runs behind it, its first `after` text responses (terminated by an empty
+// line) and `extra` further bytes reach the client, everything it writes afterwards is swallowed.
+// Reads pass through (the peer keeps reading), nothing is ever closed by the peer.
+type stallConn struct {
+	net.Conn
+	mu        sync.Mutex
+	after     int
+	extra     int
+	seen      int
+	tail      []byte
+	stalled   bool
+	swallowed int
+}
+
+func (s *stallConn) Write(p []byte) (int, error) {
+	s.mu.Lock()
+	pass := 0
+	if !s.stalled && s.seen >= s.after {
+		s.stalled = true
+	}
+	for !s.stalled && pass < len(p) {
+		s.tail = append(s.tail, p[pass])
+		if len(s.tail) > 4 {
+			s.tail = s.tail[len(s.tail)-4:]
+		}
+		pass++
+		if string(s.tail) == "\r\n\r\n" {
+			s.seen++
+			s.tail = nil
+			if s.seen >= s.after {
+				s.stalled = true
+			}
+		}
+	}
+	if s.stalled && s.extra > 0 && pass < len(p) {
+		n := len(p) - pass
+		if n > s.extra {
+			n = s.extra
+		}
+		pass += n
+		s.extra -= n
+	}
+	s.swallowed += len(p) - pass
+	s.mu.Unlock()
+	if pass > 0 {
+		if _, err := s.Conn.Write(p[:pass]); err != nil {
+			return 0, err
+		}
+	}
+	return len(p), nil
+}
+
+// reached: the stall point was reached (the server wrote something that was swallowed)
+func (s *stallConn) reached() bool {
+	s.mu.Lock()
+	defer s.mu.Unlock()
+	return s.swallowed > 0
+}
+
+func polStallKind(k byte) bool { return k == 'A' || k == 'L' || k == 'K' }
+
+// polStallCompress: what a deadline the client sets towards a stalling peer is shortened to; long
+// enough for the in-process text handshake to get to the stall point (Exec reruns with 2 s otherwise)
+var polStallCompress = 60 * time.Millisecond
+
+// the certificate the StartTLS-offering peers present (the client runs with InsecureSkipVerify)
+func polServerTLS() *cert.ServerConfig {
+	leaf := getC05PKI().server["good"]
+	return &cert.ServerConfig{Config: cert.Config{Certificate: leaf.certPEM, PrivateKey: leaf.keyPEM}}
 }
 
 type polWorld struct {
@@ -155,8 +235,8 @@ func (w *polWorld) cut(final bool) {
 	cs := append([]*polPhys(nil), w.conns...)
 	w.mu.Unlock()
 	for _, p := range cs {
-		if p.kind == 'S' && !final {
-			continue // a silent peer stays silent: it neither answers nor hangs up
+		if (p.kind == 'S' || polStallKind(p.kind)) && !final {
+			continue // a silent / stalling peer stays silent: it neither answers nor hangs up
 		}
 		w.mu.Lock()
 		was := p.serverClosed
@@ -229,6 +309,10 @@ func (f *fakeUp) Connect(manager cert.TlsConfig, mustSecure bool) error {
 		rc.compress = 40 * time.Millisecond
 	}
 	ph := &polPhys{idx: f.idx, kind: kind, client: rc, server: sEnd}
+	if polStallKind(kind) {
+		rc.compress = polStallCompress
+		ph.stall = &stallConn{Conn: sEnd, after: map[byte]int{'A': 1, 'L': 2, 'K': 2}[kind], extra: map[byte]int{'K': 7}[kind]}
+	}
 	f.w.mu.Lock()
 	f.w.conns = append(f.w.conns, ph)
 	f.w.mu.Unlock()
@@ -252,6 +336,10 @@ func (f *fakeUp) Connect(manager cert.TlsConfig, mustSecure bool) error {
 	case 'T':
 		secure = true
 		go func() { _ = server.AcceptConnection(sEnd, nil, true, channels) }()
+	case 'Q':
+		go func() { _ = server.AcceptConnection(sEnd, polServerTLS(), false, channels) }()
+	case 'A', 'L', 'K':
+		go func() { _ = server.AcceptConnection(ph.stall, polServerTLS(), false, channels) }()
 	default:
 		return errors.Errorf("bad script")
 	}
@@ -293,7 +381,7 @@ func validScript(s string) bool {
 		return false
 	}
 	for i := 0; i < len(s); i++ {
-		if !strings.ContainsRune("RSHPT", rune(s[i])) {
+		if !strings.ContainsRune("RSHPTQALK", rune(s[i])) {
 			return false
 		}
 	}
@@ -506,7 +594,7 @@ func scriptKind(s string, phase int) byte {
 	return s[0]
 }
 
-func usableUp(k byte, ms bool) bool { return k == 'T' || (k == 'P' && !ms) }
+func usableUp(k byte, ms bool) bool { return k == 'T' || k == 'Q' || (k == 'P' && !ms) }
 
 // polMonitor states the property on the observations alone (it never looks at the client's state):
 //   * a usable forward address serves every local connection and no upstream is dialled;
@@ -612,6 +700,18 @@ func polMonitor(ms bool, fwd string, scripts []string, hist string, steps []polS
 	return ""
 }
 
+// stallsReached: every stalling peer that was dialled got to its stall point
+func (w *polWorld) stallsReached() bool {
+	w.mu.Lock()
+	defer w.mu.Unlock()
+	for _, p := range w.conns {
+		if p.stall != nil && !p.stall.reached() {
+			return false
+		}
+	}
+	return true
+}
+
 // noteArmed records (before the run is torn down) whether an established, open physical connection
 // still has a deadline set: it would kill the session HandshakeTimeout after the handshake.
 func (w *polWorld) noteArmed() {
@@ -671,16 +771,28 @@ func (policyComp) Exec(op string) (string, string, string, bool) {
 	var w *polWorld
 	var blocked bool
 	var err error
-	if polBlockedOps >= 3 {
-		steps, w, blocked, err = polRunOnce(ms, fwd, scripts, hist, 700*time.Millisecond)
-	} else {
-		steps, w, blocked, err = polRunOnce(ms, fwd, scripts, hist, 4*time.Second)
-		if err == nil && blocked {
-			steps, w, blocked, err = polRunOnce(ms, fwd, scripts, hist, 10*time.Second)
-			if blocked {
-				polBlockedOps++
+	run := func() {
+		if polBlockedOps >= 3 {
+			steps, w, blocked, err = polRunOnce(ms, fwd, scripts, hist, 700*time.Millisecond)
+		} else {
+			steps, w, blocked, err = polRunOnce(ms, fwd, scripts, hist, 4*time.Second)
+			if err == nil && blocked {
+				steps, w, blocked, err = polRunOnce(ms, fwd, scripts, hist, 10*time.Second)
+				if blocked {
+					polBlockedOps++
+				}
 			}
 		}
+	}
+	run()
+	if err == nil && !blocked && !w.stallsReached() {
+		// a stalling peer was given up before it got to its stall point (loaded machine): once more
+		// with a handshake deadline of 2 s
+		old := polStallCompress
+		polStallReruns++
+		polStallCompress = 2 * time.Second
+		run()
+		polStallCompress = old
 	}
 	if err != nil {
 		return "fail:setup", err.Error(), "fail", false
@@ -720,6 +832,14 @@ func (policyComp) Exec(op string) (string, string, string, bool) {
 		}
 	}
 	class := fmt.Sprintf("n=%d %s", len(scripts), first)
+	if strings.ContainsAny(f[2], "ALK") {
+		class += "+stall"
+		for _, k := range "ALK" {
+			if strings.ContainsRune(f[2], k) {
+				class += string(k)
+			}
+		}
+	}
 	if strings.ContainsAny(hist, "xr") {
 		class += "+loss"
 	}
@@ -735,7 +855,13 @@ func (policyComp) Exec(op string) (string, string, string, bool) {
 
 var polBlockedOps int
 
+// polStallReruns counts the ops run again because a stalling peer was given up before its stall point
+var polStallReruns int
+
 var polKinds = []string{"R", "S", "H", "P", "T"}
+
+// the random histories also draw the StartTLS and stall kinds (the healthy and plainly failing ones more often)
+var polKindsAll = []string{"R", "S", "H", "P", "T", "R", "S", "H", "P", "T", "Q", "A", "L", "K"}
 
 func polLists(n int) [][]string {
 	if n == 0 {
@@ -835,9 +961,9 @@ func (policyComp) Gen(r *Rand, tier string, emit func(string)) {
 		k := 1 + r.Intn(4)
 		l := make([]string, k)
 		for j := range l {
-			l[j] = r.Pick(polKinds)
+			l[j] = r.Pick(polKindsAll)
 			if r.Intn(3) == 0 {
-				l[j] += r.Pick(polKinds)
+				l[j] += r.Pick(polKindsAll)
 			}
 		}
 		hl := 2 + r.Intn(9)
@@ -850,6 +976,32 @@ func (policyComp) Gen(r *Rand, tier string, emit func(string)) {
 			fwd = r.Pick([]string{"ok", "dead", "nohost", "noscheme"})
 		}
 		line(r.Intn(2), fwd, l, string(h))
+	}
+	// 7. stall points: an upstream that answers correctly up to a later point of the handshake and then
+	//    goes silent (A after the first response, L inside the StartTLS handshake, K inside a TLS record),
+	//    before / alone / after every healthy kind (P plain, T secure carrier, Q StartTLS), with and without
+	//    the security requirement, through first connection, reuse, loss + reconnection, concurrent
+	//    connections and restart scripts; the StartTLS kind Q in the places of P/T
+	for _, x := range []string{"A", "L", "K"} {
+		for gi, g := range []string{"P", "T", "Q"} {
+			line(0, "-", []string{x, g}, "ccxcv")
+			line(1, "-", []string{x, g}, "c2xc")
+			line(gi%2, "-", []string{g, x}, "cxc")
+			if tier == "thorough" {
+				line(1-gi%2, "-", []string{x, x, g}, "cdkc")
+				line(gi%2, "-", []string{"R", x, "H", g}, "cc")
+			}
+		}
+		line(0, "-", []string{x}, "cc")
+		line(1, "-", []string{x, "S"}, "ckc")
+		line(0, "-", []string{"S", x, "Q"}, "c3v")
+		line(0, "-", []string{"P" + x, x + "P"}, "ccrcv") // healthy then stalling after the restart, and the reverse
+		line(1, "-", []string{"Q" + x, x + "T"}, "crc")
+	}
+	line(0, "-", []string{"A", "L", "K", "Q"}, "cxc")
+	for _, l := range [][]string{{"Q"}, {"S", "Q"}, {"Q", "P"}, {"P", "Q"}, {"H", "Q"}, {"QR", "RQ"}} {
+		line(0, "-", l, "ccxcv")
+		line(1, "-", l, "c2xc")
 	}
 	// 6. malformed ops
 	for _, bad := range []string{"", "0 - P", "2 - P c", "0 - X c", "0 - P,P,P,P,P c", "0 maybe P c", "0 - P z", "0 - PPP c"} {
